@@ -34,12 +34,18 @@ CompleteMulti(e) == Cardinality(DocsSent(e)) = e.n /\ \A i \in 1..e.n : e.sends[
 (* "+5" is accepted by i32 parsing but is arguably not "a decimal integer": either typing is a step (alt) *)
 Typed(o, alt) == CASE o.class = "true" -> BoolV(TRUE) [] o.class = "false" -> BoolV(FALSE)
                    [] o.class = "int" -> IntV(o.ival)
-                   [] o.class = "plusint" -> (IF alt THEN IntV(o.ival) ELSE KwV(o.text))
+                   [] o.class \in {"plusint", "altint"} -> (IF alt THEN IntV(o.ival) ELSE KwV(o.text))
                    [] OTHER -> KwV(o.text)
 RECURSIVE OptCalls(_,_,_)
 OptCalls(os, i, alt) == IF i > Len(os) THEN <<>>
                         ELSE (IF os[i].class = "noeq" THEN <<>> ELSE <<[c |-> "attribute", name |-> os[i].k, v |-> Typed(os[i], alt)]>>)
                              \o OptCalls(os, i + 1, alt)
+(* the message equals the expected one where each ambiguous option text may be typed either way (eT / eF) *)
+EqEither(seen, eT, eF) ==
+  /\ Len(seen) = Len(eT)
+  /\ \A i \in 1..Len(seen) : (IF i <= Len(eT) THEN /\ seen[i].tag = eT[i].tag /\ DOMAIN seen[i].attrs = DOMAIN eT[i].attrs
+                                                   /\ \A n \in DOMAIN seen[i].attrs : seen[i].attrs[n] \in {eT[i].attrs[n], eF[i].attrs[n]}
+                                 ELSE FALSE)
 ObservedUri(gs) == IF Len(gs) >= 1 /\ N_puri \in DOMAIN gs[1].attrs THEN gs[1].attrs[N_puri] ELSE [k |-> "MISSING"]
 Matches(e, d) == \E j \in 1..Len(e.paymatch) : e.paymatch[j] = d
 
@@ -71,7 +77,7 @@ XReq(e) ==
          d    == DocOf(k)
      IN /\ r.ok
         /\ e.hdr_ipp.ver = exp(TRUE).ver /\ e.hdr_ipp.code = exp(TRUE).code
-        /\ \E alt \in BOOLEAN : ReqNorm(r.v) = ReqNorm(exp(alt).groups)
+        /\ EqEither(ReqNorm(r.v), ReqNorm(exp(TRUE).groups), ReqNorm(exp(FALSE).groups))
         /\ (a.prog # "get-printers" => uriV.k = "Uri")
         /\ (IF d = 0 THEN e.paylen = 0 ELSE Matches(e, d))     \* the k-th document, unchanged, in argument order
   /\ reqs' = reqs + 1 /\ UNCHANGED a
